@@ -147,7 +147,7 @@ func beAppend(n int) externFn {
 func (f *Frame) strOfSlice(v Val, st *State) Term {
 	switch b := v.(type) {
 	case SliceV:
-		return App("mkstr", SStr, f.in.regionContent(st, b.Reg, f), b.Off, b.Len)
+		return f.in.mkStr(b, st, f)
 	case Sc:
 		return b.T
 	case ArrV:
@@ -190,7 +190,7 @@ func init() {
 	}
 	externs["bytes.HasPrefix"] = func(f *Frame, call *ast.CallExpr, recv Val, args []Val, st *State) []Val {
 		a, b := f.strOfSlice(args[0], st), f.strOfSlice(args[1], st)
-		return []Val{Sc{hasPrefixTerm(a, b)}}
+		return []Val{Sc{f.in.hasPrefixUF(a, b)}}
 	}
 	externs["errors.New"] = func(f *Frame, call *ast.CallExpr, recv Val, args []Val, st *State) []Val {
 		return []Val{Sc{f.errFresh(st, "errnew")}}
@@ -295,4 +295,11 @@ func (in *Interp) declareHex() {
 	in.D.declareOnce("hex_axioms", `(assert (forall ((x Str)) (! (and (hex_ok (hex_enc x)) (= (hex_dec (hex_enc x)) x) (= (slen (hex_enc x)) (* 2 (slen x)))) :pattern ((hex_enc x)))))
 (assert (forall ((s Str)) (! (=> (hex_ok s) (= (* 2 (slen (hex_dec s))) (slen s))) :pattern ((hex_dec s)))))`)
 	in.note("encoding/hex: EncodeToString/DecodeString as uninterpreted inverse pair (decode(encode x)=x, lengths 2n<->n, decode ok only on even length)")
+}
+
+// hasPrefixUF: bytes.HasPrefix as a predicate symbol with its defining axiom.
+func (in *Interp) hasPrefixUF(s, p Term) Term {
+	in.D.declareFun("bytes_hasprefix", []string{SStr, SStr}, SBool)
+	in.D.declareOnce("bytes_hasprefix_def", "(assert (forall ((s Str) (p Str)) (! (= (bytes_hasprefix s p) "+hasPrefixTerm(Term{S: "s", Sort: SStr}, Term{S: "p", Sort: SStr}).S+") :pattern ((bytes_hasprefix s p)))))")
+	return App("bytes_hasprefix", SBool, s, p)
 }
